@@ -106,7 +106,8 @@ def engine_oracle(scen, regime, o, extra_obs):
             return None
         return (key, what)
     if r["live"] not in ("-", "?"):
-        return ("c21:%s-leak-on-%s-alloc-%s" % (site, ORD.get(k, str(k)), regime),
+        which = "vfs" if scen == "savemodel" and k == 1 else ORD.get(k, str(k))
+        return ("c21:%s-leak-on-%s-alloc-%s" % (site, which, regime),
                 "%s with a %s handler: the %s mju_malloc call (%s bytes) fails and the blocks with call ids {%s} are never "
                 "freed (mju_malloc raises mju_error itself, the caller's clean-up branch is not reached)"
                 % (scen, regime, ORD.get(k, str(k)), size, r["live"]))
@@ -123,7 +124,10 @@ def run(ctx):
                 "seeded random index sets reaching past n; compile scenario: every k in a fault-free run's call count (quick: "
                 "capped) plus seeded pairs; each op runs in a forked child; distinct by full op line; non-trivial = at least "
                 "one failing index")
+    import time as _t
+    _t0 = _t.time()
     ctx.lean_props(THEOREMS)
+    ctx.extra["lean_props_s(incl. waiting for the shared lake lock)"] = round(_t.time() - _t0, 1)
     drv = ctx.driver("drv_c21")
     impl = ctx.harness("harness/c/c21_allocfail.c", "c21_allocfail", deps=["harness/mjbuild.h"])
     if not (drv and impl):
@@ -135,7 +139,10 @@ def run(ctx):
     variant_votes = {"asis": 0, "trymalloc": 0, "neither": 0}
     nops = ncomp = 0
     hist = {}
+    import time
+    tm = {"harness": 0.0, "model": 0.0}
     for name, lines in models:
+        lines = ["spec memory 2097152"] + lines   # a small arena: its size is irrelevant here, forking is cheaper
         mfile = os.path.join(cdir, "m_%s.txt" % hashlib.md5("\n".join(lines).encode()).hexdigest()[:12])
         with open(mfile, "w") as f:
             f.write("\n".join(lines) + "\nend\n")
@@ -171,7 +178,9 @@ def run(ctx):
                 variant_votes["neither"] += 1
         lines_v = [mk(o, variant) for o in ops] + ["run makedata sideways asis - | 1 2 3", "frob"]
         nops += len(lines_v)
+        t0 = time.time()
         rc, outs, err = ctx.run_lines(cmd, lines_v)
+        tm["harness"] += time.time() - t0
         # the harness output is computed once; the correspondence compares exactly these lines with the model's
         ofile = mfile + ".out"
         with open(ofile, "w") as f:
@@ -207,7 +216,9 @@ def run(ctx):
                 cl.append("run compile longjmp asis %d,%d" % (a, b))
             cl += ["run compile returning asis %d" % k for k in ks[: (len(ks) if thorough else 6)]]
             ncomp += len(cl)
+            t0 = time.time()
             rc, couts, err = ctx.run_lines(cmd, cl)
+            tm["harness"] += time.time() - t0
             inv = {v: k for k, v in sz.items()}
             for l, res in zip(cl, couts):
                 ctx.count(("compile", name, l), nontrivial=True)
@@ -248,6 +259,7 @@ def run(ctx):
     ctx.oblige("the tree's life-cycle functions match the non-raising variant (tryMalloc_longjmp_clean = the full property applies); "
                "with the as-is variant only no_leak_partial / asIs_longjmp_live_exact hold", "theorem-applicability",
                variant == "trymalloc", "variant votes: %s" % variant_votes)
+    ctx.extra["timing_s"] = {k: round(v, 1) for k, v in tm.items()}
     ctx.extra["engine_ops"] = nops
     ctx.extra["compile_ops"] = ncomp
     ctx.extra["outcome_histogram"] = dict(sorted(hist.items()))
